@@ -1378,6 +1378,14 @@ pub fn variants(level: u8) -> Vec<Vec<Crit>> {
                 re(&format!("^{short}$")),
                 re(""),
                 re(&format!("^.{}", &a[1..2])),
+                // regular expressions whose only meta characters are the quantifiers / groups / classes / escapes that the
+                // front-ends' autodetection has to recognise (each of them matches `a`)
+                re(&format!("{pfx}?{}", &a[3..])),
+                re(&format!("{pfx}+{}", &a[3..])),
+                re(&format!("{}*{}", &a[..2], &a[2..])),
+                re(&format!("({a})")),
+                re(&format!("{}{{1}}{}", &a[..2], &a[2..])),
+                re(&format!("{pfx}\\d")),
                 // literal ids made of regex meta characters: as a regex the first would match `a`, the second is no regex
                 lit(&format!("{}.{}", &a[..1], &a[2..])),
                 lit(&format!("{}({}", &a[..1], &a[2..])),
